@@ -118,6 +118,14 @@ TABLE.update({
     # round 3 (changes in cmd/sunlight, the HTTP layer and the storage backends; /tmp/seed3/<prop>/{g,h})
     "C06g": ("C06", "/tmp/seed3/C06/g", "Inception gate becomes strings.HasPrefix(today, inception): a missing/empty/year-month Inception makes every day the Inception day, so an instance on stores lacking the log creates a second log under the same key", ["C06"]),
     "C06h": ("C06", "/tmp/seed3/C06/h", "lock-backend ambiguity check counts ETagS3 by its endpoint while the selection keys on the bucket: checkpoints + etags3 without endpoint silently runs on SQLite instead of refusing", ["C06"]),
+    "C03g": ("C03", "/tmp/seed3/C03/g", "S3Backend hedging 'simplified': a failed hedge PUT makes Upload return nil with nothing stored; needs the main PUT stuck > 75 ms while the hedge fails", ["C03", "C04"]),
+    "C03h": ("C03", "/tmp/seed3/C03/h", "cmd/sunlight prunes every staging bundle right after LoadLog succeeds: needs a crash between lock commit and publication, a restart that recovers and prunes, and a second death before the first round", ["C03"]),
+    "C17g": ("C17", "/tmp/seed3/C17/g", "HTTP status mapping switched to the source label: the second submitter (source pool) of an evicted chain gets 500 without Retry-After", ["C17"]),
+    "C17h": ("C17", "/tmp/seed3/C17/h", "a log whose stored log.v3.json already has the final tree no longer runs the sequencer once at start-up: after a restart submissions to it hang instead of getting 410", ["C17"]),
+    "C02g": ("C02", "/tmp/seed3/C02/g", "cachePut batches of 256 advance the entries but not the keys: in a pool > 256 the first entries' cache rows point at later leaves; a resubmission is acknowledged with another certificate's index", ["C02", "C07"]),
+    "C02h": ("C02", "/tmp/seed3/C02/h", "issuer key hash of the precertificate signing certificate (chain[1]) instead of its issuer", ["C09", "C02"]),
+    "C14g": ("C14", "/tmp/seed3/C14/g", "SQLite Replace = SELECT + Go compare + unconditional UPDATE: two witness processes on one file both get 200 for inconsistent trees", ["C05", "C14"]),
+    "C14h": ("C14", "/tmp/seed3/C14/h", "ETagBackend.Fetch reads exactly ContentLength bytes: a streamed (chunked) GET yields an empty body with the real ETag, the witness takes the record for size 0 and overwrites it", ["C05", "C14"]),
 })
 
 
